@@ -19,7 +19,7 @@ Events (see spec/immutable/ProducerConsumer.tla): Register Write Unregister Paus
 The verdict is TLC's (TraceProducerConsumer.tla); this file only drives and records.  No attribute of a producer is read.
 """
 from vreactor import vr, settle  # noqa: E402  (must be first)
-import argparse, json, os, random, shutil, sys
+import argparse, json, os, random, re, shutil, sys
 
 from urllib.parse import quote
 from twisted.internet import defer
@@ -529,7 +529,8 @@ class WebRead(Read):
             break
         RecNode.current = None
         head, _, body = tr.received.partition(b"\r\n\r\n")
-        status = int(head.split(b" ")[1]) if head.startswith(b"HTTP/") else 0
+        m = re.match(rb"HTTP/1\.\d (\d{3})", head)       # the client may have taken only a part of the status line
+        status = int(m.group(1)) if m else 0
         complete = (not gone) and (not cl["stall"]) and not tr.buf
         if complete and self.fired == "ok":
             # everything the gateway sent has reached the client: the body is what the client sees of the read
